@@ -147,10 +147,11 @@ fn render_item(it: &Value) -> String {
         }
         "enum" => {
             let vs: String = arr(it, "variants").iter().map(|v| {
-                let shape = match s(v, "shape").as_str() {
-                    "tuple" => "(i32, String)",
-                    "struct" => " { code: i32 }",
-                    _ => "",
+                let payload = s(v, "payload");
+                let shape: String = match s(v, "shape").as_str() {
+                    "tuple" => if payload.is_empty() { "(i32, String)".to_string() } else { format!("({})", payload) },
+                    "struct" => if payload.is_empty() { " { code: i32 }".to_string() } else { format!(" {{ inner: {} }}", payload) },
+                    _ => String::new(),
                 };
                 format!("{}    {}{},\n", render_attrs(v, "    "), s(v, "name"), shape)
             }).collect();
@@ -606,7 +607,15 @@ fn emit_expr(rng: &mut Rng, ev_names: &[&str], type_names: &[String], locals_all
         1 => json!({"k": "lit", "text": "42", "lit": "int"}),
         2 => json!({"k": "lit", "text": "1.5", "lit": "float"}),
         3 => json!({"k": "lit", "text": "true", "lit": "bool"}),
-        4 if !type_names.is_empty() => json!({"k": "struct", "segs": [rng.pick(type_names)]}),
+        4 if !type_names.is_empty() => {
+            // a struct literal, bare or module-qualified (`models::Progress { .. }`, `crate::models::Progress { .. }`)
+            let t = rng.pick(type_names).clone();
+            match rng.below(4) {
+                0 => json!({"k": "struct", "segs": ["models", t]}),
+                1 => json!({"k": "struct", "segs": ["crate", "models", t]}),
+                _ => json!({"k": "struct", "segs": [t]}),
+            }
+        }
         5 if !locals.is_empty() => json!({"k": "path", "segs": [rng.pick(locals).0]}),
         6 if !locals.is_empty() => json!({"k": "ref", "e": {"k": "path", "segs": [rng.pick(locals).0]}}),
         7 if !locals.is_empty() => json!({"k": "mcall", "recv": {"k": "path", "segs": [rng.pick(locals).0]}, "method": "clone", "args": []}),
@@ -720,7 +729,7 @@ pub fn random_project(rng: &mut Rng, nfiles: usize, adversarial: bool, externs: 
                 if rng.chance(1, 5) {
                     va.push(attr(&format!("serde(rename = \"v{}\")", k)));
                 }
-                let shape = if adversarial && rng.chance(1, 6) { *rng.pick(&["tuple", "struct"]) } else { "unit" };
+                let shape = if adversarial && rng.chance(1, 3) { *rng.pick(&["tuple", "struct"]) } else { "unit" };
                 json!({"name": format!("{}{}", rng.pick(&["Active", "Pending", "Done", "InProgress", "Ok"]), k), "attrs": va, "shape": shape})
             }).collect();
             items_per_file[f].push(json!({"k": "enum", "name": name, "attrs": attrs, "variants": variants}));
@@ -758,6 +767,25 @@ pub fn random_project(rng: &mut Rng, nfiles: usize, adversarial: bool, externs: 
             type_names.push(name);
         }
     }
+    // data-carrying variants mention project types of any file, defined earlier or later (the tool renders an enum by its
+    // variant names only: what a variant carries is no dependency of the enum)
+    if !type_names.is_empty() {
+        for items in items_per_file.iter_mut() {
+            for it in items.iter_mut() {
+                if s(it, "k") != "enum" {
+                    continue;
+                }
+                if let Some(vs) = it.get_mut("variants").and_then(|v| v.as_array_mut()) {
+                    for v in vs.iter_mut() {
+                        if s(v, "shape") != "unit" && rng.chance(2, 3) {
+                            let t = rng.pick(&type_names).clone();
+                            v["payload"] = json!(*rng.pick(&[format!("Vec<{}>", t), t.clone(), format!("Option<Box<{}>>", t), format!("{}, u8", t)]));
+                        }
+                    }
+                }
+            }
+        }
+    }
     // names of types that are *not* defined in the project (they are only legal input when the configuration maps them)
     for e in externs {
         type_names.push(e.to_string());
@@ -777,7 +805,7 @@ pub fn random_project(rng: &mut Rng, nfiles: usize, adversarial: bool, externs: 
         let mut params: Vec<Value> = Vec::new();
         let mut locals: Vec<(String, String)> = Vec::new();
         for k in 0..rng.below(4) {
-            let pname = format!("{}{}", rng.pick(&["id", "user_name", "filter", "payload", "_opt", "max__count"]), k);
+            let pname = format!("{}{}", rng.pick(&["id", "user_name", "filter", "payload", "_opt", "max__count", "größe", "名前_x", "élan_vital"]), k);
             let ty = any_ty(rng, &type_names, 2, adversarial);
             let mut pa = Vec::new();
             if rng.chance(1, 10) {
@@ -799,10 +827,15 @@ pub fn random_project(rng: &mut Rng, nfiles: usize, adversarial: bool, externs: 
         if adversarial && rng.chance(1, 5) {
             params.push(raw_param(&format!("odd{}", c), *rng.pick(NOT_INJECTED), "value_raw"));
         }
+        if adversarial && rng.chance(1, 4) {
+            // value parameters of types outside the README table: still parameters the frontend has to supply
+            params.push(raw_param(&format!("key_bytes{}", c), *rng.pick(&["[u8; 4]", "&[u8]", "[[f32; 2]; 2]", "Box<[u8]>", "fn(u8) -> u8", "*const u8", "impl Into<String>"]), "value_raw"));
+        }
         if rng.chance(1, 4) {
             let msg = any_ty(rng, &type_names, 1, adversarial);
             let sp: &str = if adversarial && rng.chance(1, 4) { *rng.pick(ODD_CHANNELS) } else { *rng.pick(CHANNELS) };
-            let mut p = raw_param(&format!("on_event{}", c), &sp.replace("{}", &msg.render()), "channel");
+            let chname = if rng.chance(1, 4) { format!("{}{}", rng.pick(&["größe_kanal", "通知", "on_événement"]), c) } else { format!("on_event{}", c) };
+            let mut p = raw_param(&chname, &sp.replace("{}", &msg.render()), "channel");
             p["chan_ty"] = ty_json(&msg);
             params.push(p);
         }
@@ -837,7 +870,11 @@ pub fn random_project(rng: &mut Rng, nfiles: usize, adversarial: bool, externs: 
             }
             let bind = |rng: &mut Rng, t: &str| -> Value {
                 if rng.chance(1, 2) {
-                    json!({"k": "let", "pat": "ident", "name": "msg_v", "init": {"k": "struct", "segs": [t]}})
+                    if rng.chance(1, 3) {
+                        json!({"k": "let", "pat": "ident", "name": "msg_v", "init": {"k": "struct", "segs": ["models", t]}})
+                    } else {
+                        json!({"k": "let", "pat": "ident", "name": "msg_v", "init": {"k": "struct", "segs": [t]}})
+                    }
                 } else {
                     json!({"k": "let", "pat": "typed", "name": "msg_v", "ty": t, "init": typed_init(rng, t)})
                 }
@@ -862,6 +899,25 @@ pub fn random_project(rng: &mut Rng, nfiles: usize, adversarial: bool, externs: 
             }
             body.push(bind(rng, &b));
             body.push(use_it(rng, &ev_names));
+        }
+        // a payload bound by `let` to an expression that carries no type name (literal, tuple, nested tuple, call result)
+        if adversarial && rng.chance(1, 3) {
+            let li = |t: &str, k: &str| json!({"k": "lit", "text": t, "lit": k});
+            let init = match rng.below(5) {
+                0 => li("7", "int"),
+                1 => li("\"copying\"", "str"),
+                2 => json!({"k": "tuple", "es": [li("3", "int"), li("true", "bool")]}),
+                3 => json!({"k": "tuple", "es": [{"k": "tuple", "es": [li("3", "int"), li("10", "int")]}, li("\"copying\"", "str")]}),
+                _ => json!({"k": "mcall", "recv": {"k": "path", "segs": ["progress"]}, "method": "snapshot", "args": []}),
+            };
+            body.push(json!({"k": "let", "pat": "ident", "name": "lit_v", "init": init}));
+            let mut e = emit_expr(rng, &ev_names, &[], &[], false);
+            if let Some(args) = e.get_mut("args").and_then(|x| x.as_array_mut()) {
+                if let Some(last) = args.last_mut() {
+                    *last = json!({"k": "path", "segs": ["lit_v"]});
+                }
+            }
+            body.push(json!({"k": "expr", "e": {"k": "mcall", "recv": e, "method": "ok", "args": []}}));
         }
         body.push(json!({"k": "other", "text": "todo!()"}));
         let cmd_attr = *rng.pick(&["tauri::command", "tauri::command", "command", "tauri::command(rename_all = \"snake_case\")", "tauri::command(async)"]);
